@@ -4,7 +4,8 @@
 // Per case: a random history of 5-60 operations on a Matrix<Opt> (base flavour, optionally with column compression) and on
 // the dense Z_p model of zp_dense.h.  After EVERY operation: get_number_of_columns, is_zero_column and is_zero_entry of
 // every cell (these do not trigger the lazy row reordering) and - always when swaps are off, with probability 1/2 when
-// they are on - get_column(i).get_content (two forms) of every column and get_row(r) of every row known to exist.
+// they are on - get_column(i).get_content (full length, one random shorter length, default length) of every column and
+// get_row(r) of every row known to exist.
 #ifndef VERIF_C09_BODY_H_
 #define VERIF_C09_BODY_H_
 
@@ -90,12 +91,20 @@ struct Run {
   int L = 0;                     // lower bound of the size of a non-removable row container
   std::vector<char> exists;      // removable rows: rows that certainly exist in the row container
   std::vector<char> seen;        // row index appeared in a column given to insert_column / the constructor
+  std::vector<char> added_only;  // row never given in an inserted column which received a value through an addition
   std::set<std::pair<unsigned, int>> za;  // cells zeroed while already zero, not yet re-created by an addition
   std::set<std::string> kinds;
   unsigned n_additive = 0, peak_nnz = 0;
   bool did_corner = false;
+  std::vector<char> hole;        // column index skipped by an insertion beyond the end (documented: an empty column)
+  bool did_force = false;        // the last observation really called get_column / get_row (there was something to read)
+  unsigned obs_salt = 0;         // selects the shorter length given to get_content in the observation of this step
+  // a second matrix of the same type (own settings, own lazy row permutation): its columns are used as entry ranges
+  std::unique_ptr<M> m2;
+  std::unique_ptr<Dense> D2;
+  static constexpr bool UNSORTED_OK = O::column_type == Column_types::HEAP || O::column_type == Column_types::UNORDERED_SET;
 
-  Run(vh::Case& c_, unsigned p, int R) : c(c_), r(c_.rng), ct(ct_name(O::column_type)), D(p, R), exists(R, 0), seen(R, 0) {}
+  Run(vh::Case& c_, unsigned p, int R) : c(c_), r(c_.rng), ct(ct_name(O::column_type)), D(p, R), exists(R, 0), seen(R, 0), added_only(R, 0) {}
 
   // ------------------------------------------------------------------ generators
   SparseCol rand_sparse() {
@@ -126,6 +135,30 @@ struct Run {
       if constexpr (!Z2) v.back().set_element(e.second);
     }
     return v;
+  }
+  bool is_hole(unsigned i) const { return i < hole.size() && hole[i]; }
+  void unhole(unsigned i) { if (i < hole.size()) hole[i] = 0; }
+  std::vector<unsigned> hole_list() const {
+    std::vector<unsigned> v;
+    for (unsigned i = 0; i < hole.size(); ++i) if (hole[i] && i < D.present.size() && D.present[i]) v.push_back(i);
+    return v;
+  }
+  // the second matrix: 3 columns over the same field, built on first use
+  bool ensure_second() {
+    if (m2) return true;
+    D2.reset(new Dense(D.p, D.R));
+    std::vector<InCol> cols;
+    std::string lg = "second Matrix(columns";
+    for (unsigned i = 0; i < 3; ++i) {
+      SparseCol s = rand_sparse();
+      lg += " " + show_sparse(s);
+      cols.push_back(make_in(s));
+      D2->insert_at(i, D2->dense_of(s));
+    }
+    c.log(lg + "," + vh::str(D.p) + ")");
+    try { m2.reset(new M(cols, D.p)); }
+    catch (const std::exception& e) { c.violation("exception", "ct=" + ct + ",op=construct_second,what=" + exc_class(e), e.what()); return false; }
+    return true;
   }
   static std::string show_sparse(const SparseCol& s) {
     std::string o = "{";
@@ -242,6 +275,7 @@ struct Run {
         if (!do_rows) {
           for (unsigned i : cols) {
             const auto& colref = m->get_column(i);
+            did_force = true;
             auto content = colref.get_content(X.R);
             if (report) c.count("cmp.get_content");
             bool same = (int)content.size() == X.R;
@@ -250,6 +284,18 @@ struct Run {
               std::string got = "[";
               for (size_t q = 0; q < content.size(); ++q) got += (q ? " " : "") + vh::str((unsigned)content[q]);
               return fail("get_content", "content_differs", "get_column(" + vh::str(i) + ").get_content(R)=" + got + "]");
+            }
+            if (X.R >= 1) {  // one shorter length per column and step: the first len rows
+              int len = (int)((obs_salt + i) % (unsigned)X.R);
+              auto part = colref.get_content(len);
+              if (report) c.count("cmp.get_content_shorter_length");
+              same = (int)part.size() == len;
+              for (int row = 0; same && row < len; ++row) same = ((unsigned)part[row] == X.col[i][row]);
+              if (!same) {
+                std::string got = "[";
+                for (size_t q = 0; q < part.size(); ++q) got += (q ? " " : "") + vh::str((unsigned)part[q]);
+                return fail("get_content", "shorter_length_content_differs", "get_column(" + vh::str(i) + ").get_content(" + vh::str(len) + ")=" + got + "]");
+              }
             }
             auto trimmed = colref.get_content();
             int want_len = 0;
@@ -264,10 +310,13 @@ struct Run {
               bool ex = RR ? (bool)exists[row] : (row < L);
               if (!ex) { if (report) c.count("skip.get_row_not_materialised"); continue; }
               const auto& rw = m->get_row((unsigned)row);
+              did_force = true;
               if (report) c.count("cmp.get_row");
               std::map<unsigned, unsigned> got;  // key: column index (plain) or class (compressed)
               for (const auto& e : rw) {
                 unsigned ci = e.get_column_index();
+                if ((int)e.get_row_index() != row)
+                  return fail("get_row", "entry_with_other_row_index", "row " + vh::str(row) + " lists an entry whose get_row_index() is " + vh::str(e.get_row_index()));
                 if (ci >= X.present.size() || !X.present[ci])
                   return fail("get_row", "entry_with_unknown_column_index", "row " + vh::str(row) + " lists column " + vh::str(ci));
                 unsigned key = COMP ? X.find(ci) : ci;
@@ -323,7 +372,7 @@ struct Run {
     std::string opsig;
     Dense alt = D; bool has_alt = false;
     const std::string pend = pending ? ",lazy_pending" : "";  // signatures only carry the corner flags that hold
-    bool ok = true;
+    bool ok = true, force_obs = false;
     auto guarded = [&](auto&& f) {
       try { f(); }
       catch (const std::exception& e) { c.violation("exception", "ct=" + ct + "," + opsig + ",what=" + exc_class(e), e.what()); ok = false; }
@@ -339,25 +388,48 @@ struct Run {
       SparseCol s = rand_sparse();
       if (np >= 1 && r.chance(1, 4)) { unsigned j; if (pick_col(j, 0)) s = sparse_of(D.col[j]); }  // duplicate of an existing column
       InCol in = make_in(s);
-      // index: the end, or (no row access, no compression) an explicitly removed index / the end given explicitly
-      unsigned idx = D.next; bool explicit_idx = false;
+      // index: the end, or (no row access, no compression) an explicitly removed index / the end given explicitly / 1-3
+      // positions beyond the end (the skipped indices are documented as empty columns: the model inserts them as such)
+      unsigned idx = D.next; bool explicit_idx = false, beyond = false;
       if constexpr (!RA && !COMP) {
         if (r.chance(1, 3)) {
           explicit_idx = true;
           std::vector<unsigned> holes;
           for (unsigned i = 0; i < D.next; ++i) if (!D.present[i]) holes.push_back(i);
           if (!holes.empty() && r.chance(2, 3)) idx = r.pick(holes);
+          else if (np <= 6 && r.chance(1, 2)) { idx = D.next + 1 + (unsigned)r.below(3); beyond = true; }
         }
       }
-      opsig = std::string("op=insert_column") + (explicit_idx ? (idx == D.next ? ",at=end_explicit" : ",at=removed_index") : "") +
+      // insert_boundary is documented as equivalent to insert_column for a basic matrix (the dimension is ignored)
+      const bool as_boundary = !explicit_idx && r.chance(1, 2);
+      const bool with_dim = as_boundary && !COMP && r.chance(1, 3);
+      const int dim = with_dim ? (int)r.below(4) : 0;
+      opsig = std::string(as_boundary ? "op=insert_boundary" : "op=insert_column") +
+              (explicit_idx ? (beyond ? ",at=beyond_end" : idx == D.next ? ",at=end_explicit" : ",at=removed_index") : "") +
               (s.empty() ? ",col=empty" : "") + pend;
-      c.log("insert_column " + show_sparse(s) + (explicit_idx ? " at " + vh::str(idx) : ""));
+      c.log(std::string(as_boundary ? "insert_boundary " : "insert_column ") + show_sparse(s) + (explicit_idx ? " at " + vh::str(idx) : "") +
+            (with_dim ? " dim " + vh::str(dim) : ""));
       guarded([&] {
-        if constexpr (!RA && !COMP) { if (explicit_idx) m->insert_column(in, idx); else m->insert_column(in); }
-        else m->insert_column(in);
+        if (as_boundary) { if (with_dim) m->insert_boundary(in, dim); else m->insert_boundary(in); }
+        else {
+          if constexpr (!RA && !COMP) { if (explicit_idx) m->insert_column(in, idx); else m->insert_column(in); }
+          else m->insert_column(in);
+        }
       });
       if (!ok) return false;
-      for (auto it = za.begin(); it != za.end();) { if (it->first == idx) it = za.erase(it); else ++it; }
+      for (auto it = za.begin(); it != za.end();) { if (it->first >= D.next || it->first == idx) it = za.erase(it); else ++it; }
+      if (beyond) {
+        for (unsigned i = D.next; i < idx; ++i) {
+          D.insert_at(i, DCol(D.R, 0));
+          if (hole.size() <= i) hole.resize(i + 1, 0);
+          hole[i] = 1;
+          c.count("op.insert_column.skipped_index");
+        }
+        c.count("op.insert_column.beyond_end");
+      }
+      unhole(idx);
+      if (as_boundary) c.count("op.insert_boundary");
+      if (as_boundary && pending) c.count("op.insert_boundary_while_lazy_pending");
       D.insert_at(idx, D.dense_of(s));
       if constexpr (COMP) { D.uf[idx] = idx; D.merge_identical(idx); }
       note_inserted(idx, s);
@@ -370,13 +442,16 @@ struct Run {
         bool last = !MAPC || r.chance(1, 2);
         unsigned idx = 0;
         if (!last) { pick_col(idx, 0); }
-        opsig = std::string("op=") + (last ? "remove_last" : "remove_column") + pend;
+        opsig = std::string("op=") + (last ? "remove_last" : "remove_column") +
+                (is_hole(last ? (D.next ? D.next - 1 : 0) : idx) ? ",col=skipped_index" : "") + pend;
         if (last) {
           c.log("remove_last");
           guarded([&] { m->remove_last(); });
           if (!ok) return false;
           unsigned gone = D.next ? D.next - 1 : 0;
           for (auto it = za.begin(); it != za.end();) { if (it->first == gone) it = za.erase(it); else ++it; }
+          if (D.next && is_hole(gone)) c.count("hole.removed");
+          unhole(gone);
           D.remove_last();
           c.count("op.remove_last");
         } else {
@@ -386,6 +461,8 @@ struct Run {
             if (!ok) return false;
             for (auto it = za.begin(); it != za.end();) { if (it->first == idx) it = za.erase(it); else ++it; }
             D.remove_column(idx);
+            if (is_hole(idx)) c.count("hole.removed");
+            unhole(idx);
             c.count("op.remove_column");
           }
         }
@@ -400,12 +477,16 @@ struct Run {
         auto it = za.begin(); std::advance(it, (long)r.below(za.size()));
         if (it->first < D.present.size() && D.present[it->first]) t = it->first;
       }
+      if constexpr (!RA && !COMP) {  // aim at a column which only exists because an insertion beyond the end skipped its index
+        std::vector<unsigned> hl = hole_list();
+        if (!hl.empty() && r.chance(1, 5)) t = r.pick(hl);
+      }
       int coef = 1; std::string raw = "none";
       if (kind != 0) coef = pick_coef(raw);
       unsigned cv = D.norm(coef);
       // source
       DCol src; std::string srckind; unsigned sidx = 0; std::vector<Entry> range; bool range_is_column = false;
-      bool self_source = false;
+      bool self_source = false, range_is_other = false, unsorted = false;
       if (by_index) {
         // "any sequence of column additions": the source may be the target itself (or, with compression, another member of
         // the target's class, i.e. the same stored column)
@@ -414,12 +495,42 @@ struct Run {
           if constexpr (COMP) { std::vector<unsigned> mem = D.members(t); sidx = r.pick(mem); }
           c.count("op.additive_with_source_equal_to_target");
         } else if (!pick_col(sidx, (int)r.below(3), (long)t)) { c.count("skip.no_distinct_source"); return true; }
+        if constexpr (!RA && !COMP) {
+          if (!self_source && r.chance(1, 6)) {
+            std::vector<unsigned> hl;
+            for (unsigned h : hole_list()) if (h != t) hl.push_back(h);
+            if (!hl.empty()) sidx = r.pick(hl);
+          }
+        }
         src = D.col[sidx]; srckind = "index";
       } else {
         // an entry range: either a vector of entries (only in an ordered state: its row indices are public ones), or a
         // column of the matrix itself obtained through get_column (which applies the pending permutation)
         bool want_col = np >= 2 && r.chance(SW ? 1u : 2u, 5u);
-        if (want_col && pick_col(sidx, (int)r.below(3), (long)t)) { range_is_column = true; src = D.col[sidx]; srckind = "range_column"; }
+        if (r.chance(1, 12)) {
+          // the entry range is the target column itself (with compression: the column of a member of the target's class,
+          // i.e. the same stored column): "any sequence of column additions" includes c += c given in this form
+          sidx = t; self_source = true; range_is_column = true;
+          if constexpr (COMP) { std::vector<unsigned> mem = D.members(t); sidx = r.pick(mem); }
+          src = D.col[sidx]; srckind = "range_column";
+          c.count("op.range_column_aliasing_target");
+        } else if (D.p < 1000 && r.chance(1, 8)) {
+          // a column of a second matrix of the same type; half of the time (swaps on) that matrix has a pending row swap
+          if (!ensure_second()) return false;
+          sidx = (unsigned)r.below(3); range_is_other = true; srckind = "range_other_matrix";
+          if constexpr (SW && !COMP) {
+            if (r.chance(1, 2)) {
+              int a = (int)r.below(D.R), b = (int)r.below(D.R);
+              opsig = std::string("op=swap_rows,matrix=second");
+              c.log("  second.swap_rows " + vh::str(a) + " " + vh::str(b));
+              guarded([&] { m2->swap_rows((unsigned)a, (unsigned)b); });
+              if (!ok) return false;
+              D2->swap_rows(a, b);
+              c.count("op.other_matrix_source_with_pending_swap");
+            }
+          }
+          src = D2->col[sidx];
+        } else if (want_col && pick_col(sidx, (int)r.below(3), (long)t)) { range_is_column = true; src = D.col[sidx]; srckind = "range_column"; }
         else {
           // (the row indices of an entry vector are public ones, also while a lazy row swap is pending inside the matrix)
           if (pending) c.count("op.entry_vector_while_lazy_pending");
@@ -436,14 +547,26 @@ struct Run {
               c.count("op.make_identical_to_other_class");
             }
           }
+          if constexpr (UNSORTED_OK) {  // documented for HEAP and UNORDERED_SET columns: the range does not need to be ordered
+            if (s.size() >= 2 && r.chance(1, 2)) {
+              SparseCol before = s;
+              r.shuffle(s);
+              unsorted = (s != before);
+              if (unsorted) c.count("op.range_vector_unsorted");
+            }
+          }
           range = make_range(s); src = D.dense_of(s); srckind = "range_vector";
           c.log("  range " + show_sparse(s));
         }
       }
       const bool tz = D.zero_col(t), sz = Dense::is_zero(src);
-      opsig = std::string("op=") + kname[kind] + (by_index ? "" : ",src=range") + (self_source ? ",src=target" : "") + (sz ? ",src=empty" : "") + (tz ? ",tgt=empty" : "") +
+      const bool src_hole = (by_index || range_is_column) && is_hole(sidx), tgt_hole = is_hole(t);
+      opsig = std::string("op=") + kname[kind] + (by_index ? "" : ",src=range") + (self_source ? ",src=target" : "") +
+              (range_is_other ? ",src=other_matrix_column" : "") + (unsorted ? ",src=unsorted" : "") +
+              (src_hole ? ",src=skipped_index" : "") + (tgt_hole ? ",tgt=skipped_index" : "") +
+              (sz ? ",src=empty" : "") + (tz ? ",tgt=empty" : "") +
               ((kind && cv == 0) ? ",coef=zero" : "") + (raw == "below-p" ? ",coef_below_minus_p" : "") + pend;
-      c.log(std::string(kname[kind]) + " src=" + (srckind == "range_vector" ? std::string("range") : vh::str(sidx) + (range_is_column ? "(get_column)" : "")) +
+      c.log(std::string(kname[kind]) + " src=" + (srckind == "range_vector" ? std::string("range") : vh::str(sidx) + (range_is_column ? "(get_column)" : range_is_other ? "(second.get_column)" : "")) +
             " coef=" + vh::str(coef) + " tgt=" + vh::str(t));
       guarded([&] {
         if (by_index) {
@@ -452,6 +575,11 @@ struct Run {
           else m->multiply_source_and_add_to(coef, sidx, t);
         } else if (range_is_column) {
           const auto& sc = m->get_column(sidx);
+          if (kind == 0) m->add_to(sc, t);
+          else if (kind == 1) m->multiply_target_and_add_to(sc, coef, t);
+          else m->multiply_source_and_add_to(coef, sc, t);
+        } else if (range_is_other) {
+          const auto& sc = m2->get_column(sidx);  // applies the pending row permutation of the second matrix
           if (kind == 0) m->add_to(sc, t);
           else if (kind == 1) m->multiply_target_and_add_to(sc, coef, t);
           else m->multiply_source_and_add_to(coef, sc, t);
@@ -488,8 +616,13 @@ struct Run {
         apply(D, t); touched(t);
       }
       if (pending == false) refresh_rows_after_ordered_state();
+      for (int q = 0; q < D.R; ++q) if (!seen[q] && D.row_nonzero(q)) added_only[q] = 1;
       ++n_additive;
-      c.count(std::string("op.") + kname[kind] + (by_index ? ".index" : range_is_column ? ".range_column" : ".range_vector"));
+      c.count(std::string("op.") + kname[kind] + (by_index ? ".index" : range_is_column ? ".range_column" : range_is_other ? ".range_other_matrix" : ".range_vector"));
+      if (range_is_other) c.count("op.other_matrix_column_as_source");
+      if (self_source && !by_index) { c.count(std::string("op.") + kname[kind] + ".range_column_aliasing_target"); force_obs = true; }
+      if (src_hole) c.count("hole.addition_source");
+      if (tgt_hole) c.count("hole.addition_target");
       kinds.insert(kname[kind]);
       if (tz) { c.count(ct + ".into_empty_target"); did_corner = true; }
       if (tz && kind == 2) c.count(ct + ".scaled_source_into_empty_target");
@@ -500,13 +633,15 @@ struct Run {
     } else if (op == ZE) {
       if constexpr (!COMP) {
         unsigned t; pick_col(t, 2);
+        if constexpr (!RA) { std::vector<unsigned> hl = hole_list(); if (!hl.empty() && r.chance(1, 6)) t = r.pick(hl); }
         int row = (int)r.below(D.R);
         if (!D.zero_col(t) && r.chance(1, 2)) {  // aim at a present entry half of the time
           std::vector<int> nz; for (int q = 0; q < D.R; ++q) if (D.col[t][q]) nz.push_back(q);
           row = r.pick(nz);
         }
         bool absent = D.col[t][row] == 0;
-        opsig = std::string("op=zero_entry") + (absent ? ",entry=absent" : "") + (seen[row] ? "" : ",row=fresh") + pend;
+        opsig = std::string("op=zero_entry") + (is_hole(t) ? ",col=skipped_index" : "") + (absent ? ",entry=absent" : "") + (seen[row] ? "" : ",row=fresh") + pend;
+        if (is_hole(t)) c.count("hole.zeroed");
         c.log("zero_entry col=" + vh::str(t) + " row=" + vh::str(row));
         guarded([&] { m->zero_entry(t, (unsigned)row); });
         if (!ok) return false;
@@ -517,7 +652,9 @@ struct Run {
     } else if (op == ZC) {
       if constexpr (!COMP) {
         unsigned t; pick_col(t, (int)r.below(3));
-        opsig = std::string("op=zero_column") + (D.zero_col(t) ? ",col=empty" : "") + pend;
+        if constexpr (!RA) { std::vector<unsigned> hl = hole_list(); if (!hl.empty() && r.chance(1, 4)) t = r.pick(hl); }
+        opsig = std::string("op=zero_column") + (is_hole(t) ? ",col=skipped_index" : "") + (D.zero_col(t) ? ",col=empty" : "") + pend;
+        if (is_hole(t)) c.count("hole.zeroed");
         c.log("zero_column " + vh::str(t));
         guarded([&] { m->zero_column(t); });
         if (!ok) return false;
@@ -528,8 +665,16 @@ struct Run {
       }
     } else if (op == SWC) {
       if constexpr (SW && !COMP) {
-        unsigned a, b; pick_col(a, 0); if (!pick_col(b, 0, (long)a)) return true;
-        opsig = std::string("op=swap_columns") + pend;
+        unsigned a, b; pick_col(a, 0);
+        const bool same = r.chance(1, 8);  // swap_columns(a, a) is a no-op of the model
+        if (same) b = a; else if (!pick_col(b, 0, (long)a)) return true;
+        opsig = std::string("op=swap_columns") + (same ? ",same_index" : "") + ((is_hole(a) || is_hole(b)) ? ",col=skipped_index" : "") + pend;
+        if (same) c.count("op.swap_columns.same_index");
+        if (is_hole(a) != is_hole(b)) {
+          c.count("hole.swapped");
+          if (hole.size() <= std::max(a, b)) hole.resize(std::max(a, b) + 1, 0);
+          std::swap(hole[a], hole[b]);  // the column object created for the skipped index travels with the swap
+        }
         c.log("swap_columns " + vh::str(a) + " " + vh::str(b));
         guarded([&] { m->swap_columns(a, b); });
         if (!ok) return false;
@@ -552,6 +697,7 @@ struct Run {
         if (!ok) return false;
         D.swap_rows(a, b);
         std::swap(seen[a], seen[b]);  // what the matrix knows about a row index travels with the row
+        std::swap(added_only[a], added_only[b]);
         za.clear();
         pending = true;
         c.count("op.swap_rows"); kinds.insert("swr");
@@ -559,12 +705,19 @@ struct Run {
         if (!(seen[a] && seen[b])) c.count("op.swap_rows.fresh_row");
       }
     } else if (op == ERR) {
-      // erase_empty_row: documented precondition = the row is empty; only rows the matrix has been told about
+      // erase_empty_row: documented precondition = the row is empty (in the model: every row without a non-zero value, also
+      // one whose index the matrix never saw, or saw only through an addition, or while a lazy swap is pending)
       std::vector<int> cand;
-      for (int q = 0; q < D.R; ++q) if (!D.row_nonzero(q) && seen[q] && (RR ? (bool)exists[q] : true)) cand.push_back(q);
-      if (cand.empty()) { c.count("skip.no_empty_known_row"); return true; }
+      for (int q = 0; q < D.R; ++q) if (!D.row_nonzero(q)) cand.push_back(q);
+      if (cand.empty()) { c.count("skip.no_empty_row"); return true; }
       int row = r.pick(cand);
-      opsig = std::string("op=erase_empty_row") + pend;
+      const bool known = seen[row] && (RR ? (bool)exists[row] : true);
+      opsig = std::string("op=erase_empty_row") + (known ? "" : seen[row] ? ",row=not_materialised" : ",row=fresh") + pend;
+      if (!seen[row]) c.count("op.erase_empty_row.row_never_inserted");
+      if (!seen[row] && added_only[row]) c.count("op.erase_empty_row.row_created_by_addition_only");
+      added_only[row] = 0;
+      if (!known) c.count("op.erase_empty_row.row_not_known");
+      if (pending) c.count("op.erase_empty_row.while_lazy_pending");
       c.log("erase_empty_row " + vh::str(row));
       guarded([&] { m->erase_empty_row((unsigned)row); });
       if (!ok) return false;
@@ -575,7 +728,10 @@ struct Run {
 
     peak_nnz = std::max(peak_nnz, D.nnz());
     // observation
+    obs_salt = (unsigned)r.below(64);
+    did_force = false;
     bool force = !SW || r.chance(1, 2);
+    if (force_obs) force = true;  // (get_column was called by the operation itself: nothing lazy is left to preserve)
     bool rows_first = r.chance(1, 2);
     if (has_alt) {
       if (!observe(D, opsig, force, rows_first, false)) {
@@ -583,7 +739,7 @@ struct Run {
       }
     }
     if (!observe(D, opsig, force, rows_first, true)) return false;
-    if (force) {
+    if (force && did_force) {
       if (pending) c.count("obs.forced_while_lazy_pending");
       pending = false; refresh_rows_after_ordered_state(); c.count("obs.forcing");
     } else c.count("obs.non_forcing_only");
@@ -605,8 +761,14 @@ void run_case(vh::Case& c) {
   static bool handler_installed = (signal(SIGABRT, abort_with_stack), true);
   (void)handler_installed;
   vh::Rng& r = c.rng;
-  static const unsigned primes[4] = {3, 5, 7, 13};
-  unsigned p = O::is_z2 ? 2u : primes[r.below(4)];
+  // without is_z2 the characteristic 2 goes through the general Z_p code; 257 and 4099 have values beyond one byte (4099
+  // only once in 40 cases: the field operators compute their table of inverses in O(p^2) per matrix)
+  static const unsigned primes[8] = {2, 3, 3, 5, 7, 13, 251, 257};
+  unsigned p = O::is_z2 ? 2u : primes[r.below(8)];
+  if (!O::is_z2 && r.chance(1, 40)) p = 4099;
+  if (!O::is_z2 && p == 2) c.count("field.p2_with_general_coefficients");
+  if (p > 256) c.count("field.p_above_256");
+  if (p == 4099) c.count("field.p_4099");
   // shapes are deliberately non-square: up to 16 rows for at most 8 columns
   int R = r.chance(O::has_column_compression ? 2u : 1u, 4u) ? 1 + (int)r.below(4) : 1 + (int)r.below(16);
   Run<O> run(c, p, R);
